@@ -56,6 +56,12 @@ Parallel(require="sharedmem") / threading pool is classified PassShared: the thr
 Without shared memory the tasks receive pickled copies (or run sequentially for n_jobs=1): Pass.  Parallel(...)(x) with x not a
 comprehension of delayed calls fails closed.
 
+Host facts (environment kind Host): os.cpu_count, os.sched_getaffinity, multiprocessing / joblib cpu_count, joblib.effective_n_jobs, ... read how
+many CPUs THIS process may use.  The value may only become a degree of parallelism: written directly as a keyword n_jobs= / max_workers= /
+num_workers= / n_workers= / processes= / n_threads= of a call, or assigned to a local all of whose uses are such keywords (flow
+Parallelism, benign) or log messages.  Anything else - a number of restarts, candidates, draws, a seed, a comparison - is Flows: two
+processes with different CPU allowances compute different things from the same seed.
+
 State shared with the caller (environment kind SharedState).  The attributes through which ConfigSpace generators are reached
 (self._problem, self.space, self.config_space: the first attribute of every cs-root) hold objects that carry RNG state.  Every assignment
 self.<attr> = <value> to one of them is listed: value copy.deepcopy(<parameter>) = Owned (benign); any other value that involves a
@@ -72,8 +78,8 @@ ANCHORS = [
     "skopt/space/space.py", "skopt/acquisition.py", "skopt/moo/_multiobjective.py",
 ]
 CLASSES = ["Seeded", "Global", "CtorSeeded", "CtorFresh", "Dist", "CS", "CSSeed", "Ext", "Pass", "PassFresh", "PassShared", "Guarded"]
-ENV_KINDS = ["SetOrder", "Hash", "Id", "Listing", "Clock", "Pid", "Entropy", "SharedState"]
-FLOWS = ["LogOnly", "PathOnly", "Flows", "Owned"]
+ENV_KINDS = ["SetOrder", "Hash", "Id", "Listing", "Clock", "Pid", "Entropy", "SharedState", "Host"]
+FLOWS = ["LogOnly", "PathOnly", "Flows", "Owned", "Parallelism"]
 
 RNG_METHODS = {
     "rvs", "randint", "rand", "randn", "random", "random_sample", "ranf", "sample", "choice", "choices", "shuffle", "permutation", "permuted",
@@ -101,6 +107,11 @@ ENV_CALLS = {
     "time.localtime": "Clock", "time.gmtime": "Clock", "time.ctime": "Clock", "time.process_time": "Clock",
     "datetime.datetime.now": "Clock", "datetime.datetime.utcnow": "Clock", "datetime.datetime.today": "Clock", "datetime.date.today": "Clock",
     "os.getpid": "Pid", "os.getppid": "Pid", "threading.get_ident": "Pid", "socket.gethostname": "Pid",
+    # facts of the host / of the allowance of the process (affinity mask, cgroup quota, machine): they may only decide HOW MUCH runs in parallel
+    "os.cpu_count": "Host", "os.process_cpu_count": "Host", "os.sched_getaffinity": "Host", "multiprocessing.cpu_count": "Host", "joblib.cpu_count": "Host",
+    "joblib.effective_n_jobs": "Host", "joblib.parallel.effective_n_jobs": "Host", "sklearn.utils.parallel.effective_n_jobs": "Host",
+    "psutil.cpu_count": "Host", "psutil.virtual_memory": "Host", "os.getloadavg": "Host", "shutil.disk_usage": "Host", "resource.getrlimit": "Host",
+    "loky.cpu_count": "Host", "torch.get_num_threads": "Host", "threadpoolctl.threadpool_info": "Host",
     "os.urandom": "Entropy", "uuid.uuid1": "Entropy", "uuid.uuid4": "Entropy", "secrets.token_hex": "Entropy", "secrets.token_bytes": "Entropy",
     "secrets.randbits": "Entropy",
 }
@@ -569,6 +580,8 @@ class FileWalk:
                 if root in ("logging", "logger", "log", "warnings") or ".isEnabledFor" in d or ".getEffectiveLevel" in d or d.endswith(".isatty"):
                     return True
                 f = self.fq(d)
+                if d.split(".")[-1] in ("effective_n_jobs", "cpu_count", "sched_getaffinity", "process_cpu_count"):
+                    return True
                 if d in ENV_CALLS or f in ENV_CALLS or f in ("os.getenv", "os.getcwd", "os.cpu_count", "sys.gettrace", "sys.getrecursionlimit", "platform.system", "platform.node"):
                     return True
             elif isinstance(x, ast.Attribute):
@@ -837,6 +850,24 @@ class FileWalk:
                 return False
         return False
 
+    PAR_KW = {"n_jobs", "max_workers", "num_workers", "n_workers", "processes", "n_threads", "nthreads", "num_threads"}
+
+    def host_flow_of(self, call):
+        """A host fact may only become a degree of parallelism (or a log message)."""
+        if self.in_logging_call(call):
+            return "LogOnly"
+        p = self.parent.get(call)
+        if isinstance(p, ast.keyword) and p.arg in self.PAR_KW:
+            return "Parallelism"
+        fn = self.inner_function(call)
+        if fn is not None and isinstance(p, ast.Assign) and len(p.targets) == 1 and isinstance(p.targets[0], ast.Name):
+            name = p.targets[0].id
+            uses = [n for n in ast.walk(fn) if isinstance(n, ast.Name) and n.id == name and isinstance(n.ctx, ast.Load)]
+            if uses and all((isinstance(self.parent.get(u), ast.keyword) and self.parent[u].arg in self.PAR_KW) or self.in_logging_call(u) for u in uses) \
+                    and len(self.local_assignments(fn, name)) == 1:
+                return "Parallelism"
+        return "Flows"
+
     def flow_of(self, call):
         """Where does the value of an environment read go?  LogOnly / PathOnly / Flows (intra-procedural taint over simple local names)."""
         fn = self.inner_function(call)
@@ -910,7 +941,8 @@ class FileWalk:
                 f = self.fq(d)
                 ek = ENV_CALLS.get(d) if d in ("hash", "id") else ENV_CALLS.get(f)
                 if ek:
-                    self.env_sites.append(dict(file=self.rel, line=c.lineno, end=c.end_lineno, func=qn, callee=d, kind=ek, flow=self.flow_of(c), guard=self.guard_of(c)))
+                    self.env_sites.append(dict(file=self.rel, line=c.lineno, end=c.end_lineno, func=qn, callee=d, kind=ek,
+                                               flow=self.host_flow_of(c) if ek == "Host" else self.flow_of(c), guard=self.guard_of(c)))
             # a set-valued expression consumed in an order-sensitive way
             if isinstance(c, ast.expr) and self.is_set_valued(c):
                 p = self.parent.get(c)
